@@ -11,6 +11,7 @@ import MpsVerif.Drv.Tee
 import MpsVerif.Drv.Refcount
 import MpsVerif.Drv.ProxyCall
 import MpsVerif.Drv.Servlet
+import MpsVerif.Drv.IterQueue
 
 def main (args : List String) : IO UInt32 := do
   match args with
@@ -29,4 +30,5 @@ def main (args : List String) : IO UInt32 := do
   | ["refcount"] => Refcount.Drv.main; return 0
   | ["proxycall"] => ProxyCall.Drv.main; return 0
   | ["servlet"] => Servlet.Drv.main; return 0
+  | ["iterq"] => IterQueue.Drv.main; return 0
   | _ => IO.eprintln s!"usage: drv <model>   (models: fifo)"; return 2
